@@ -205,3 +205,37 @@ CHECKS["C03"]["packages"] = ["l1chan", "l2node"]
 CHECKS["C16"]["packages"] = ["l2transport", "schedh"]
 CHECKS["C02"]["packages"] = ["l1chan", "l2node", "schedh"]
 CHECKS["C09"]["packages"] = ["l1chan", "l2node", "l2transport", "schedh"]
+
+# ---- addenda: cell families added after the first version (rounds 2-3 of seeded changes, thorough-tier findings)
+def _also(pid, rule=None, note=None, technique=None):
+    if rule:
+        CHECKS[pid]["rule"] += " ALSO: " + rule
+    if note is not None:
+        CHECKS[pid]["level_note"] = (CHECKS[pid].get("level_note", "") + " " + note).strip()
+    if technique:
+        CHECKS[pid]["technique"] += "; " + technique
+
+
+_also("C01", rule="receiver-only per-channel store with an application that keeps the request paused across an early restart (restart before the first block).")
+_also("C02", technique="deviation-bounded scheduler enumeration at lock + datastore-operation granularity (terminal announcement vs. queries)",
+      rule="manager level (l2node): API restart / incoming restart / validation update on terminal channels, same process and reopened store; scheduler cells (schedh): a channel is closed / failed / completed while a subscriber, the moment a terminal status is announced, queries and restarts it and delivers a restart-existing request - every interleaving with <=1 (thorough 2) preemptions where library locks and every datastore Get/Has/Put/Delete are scheduling points: the query returns the announced status, the restart is a successful no-op, nothing is re-issued.")
+_also("C03", rule="manager level: every validator answer vector as a validation update on a finalizing responder - a non-releasing update leaves it in Finalizing, paused, announcing a paused Complete; a releasing one completes it with an un-paused Complete.")
+_also("C04", rule="restart kinds additionally x follow-up voucher of type {none, U, T} received before the restart (the request's own type must still decide).")
+_also("C06", rule="payload family includes schema-typed (bindnode) values whose representation differs from the type-level view (tuple, renamed map).")
+_also("C07", technique="deviation-bounded scheduler enumeration at statement/atomic granularity of the index caches",
+      rule="two live channels sharing the numeric transfer id (different initiators): in-order reports, replays and a reopen interleaved in every order to depth 5 (thorough 7) against per-channel references; concurrent reporters (2-3 threads) and concurrent replays after a reopen under the cooperative scheduler.")
+_also("C08", rule="while paused at the limit (also after a process restart) every further report returns the pause signal.")
+CHECKS["C08"]["level_note"] = "whether an over-limit report re-announces DataLimitExceeded is unconstrained"
+_also("C09", technique="deviation-bounded scheduler enumeration of responder-side operation pairs at lock granularity",
+      rule="manager and transport level close/cancel cells; scheduler cells: on a received pull channel with a per-channel-store configurer, every pair of {graphsync callbacks, peer messages, API calls} in which one ends the channel, <=1 (thorough 2) preemptions: the cleanup finishes and every call returns. Window alphabet of (b) = bookkeeping + ending operations (a lifecycle event arriving during cleanup is 'further input').")
+_also("C13", rule="differential run with both an empty and a null stage log in the v2 record; payload family includes schema-typed values.")
+_also("C14", rule="thread cells also start with the channel not yet added: AddPush/PullChannel racing with an event that ends the channel (scheduling point inside SubscribeToEvents of the API double).")
+_also("C15", rule="inbound alphabet includes well-formed envelopes whose IsRq flag contradicts the body they carry.")
+_also("C16", technique="deviation-bounded scheduler enumeration of (graphsync request hook || CleanupChannel) at lock granularity on the real transport behind a recording events handler",
+      rule="hook-vs-cleanup: incoming pull request / request answering our push / restart of a tracked pull, concurrent with CleanupChannel of that channel, <=2 (thorough 4) preemptions; afterwards the request's later callbacks are fired: if the transport no longer tracks the channel none may reach the events handler.")
+_also("C17", technique="deviation-bounded scheduler enumeration (caller vs notification goroutine) at lock granularity",
+      rule="open-options matrix (subscriber alone / with transport options in either order / with a configurer) x every drivable state; scheduler cells: OpenPush/OpenPull with a per-transfer subscriber (with and without a working configurer) followed by a voucher, <=1 (thorough 3) preemptions: the per-transfer subscriber sees exactly the channel's events, starting with Open.")
+_also("C18", technique="deviation-bounded scheduler enumeration at datastore-operation granularity (concurrent duplicate deliveries)",
+      rule="manager level: a duplicate new request in every drivable state of a received channel (both directions, both delivery paths, same/different voucher, validator accept/reject) is refused and leaves accessor vector, persisted bytes and event stream untouched; scheduler cells: the same new request delivered twice concurrently, every datastore operation a scheduling point, <=1 (thorough 2) preemptions: accepted at most once and the channel equals the single-delivery reference.")
+_also("C19", rule="the same voucher result may be issued twice in a row; every applied NewVoucher / NewVoucherResult adds exactly one log entry, every other operation none.")
+_also("C20", rule="responder-side pairs (received pull channel with a UseStore/MaxLinks configurer: restart / duplicate / second request arriving as graphsync requests, peer cancel/pause/voucher messages, block-queued / requestor-cancelled / response-completed callbacks, close, validation update, local restart, queries), <=1 (thorough 2) preemptions; restart+restart+peer-cancels with 2 preemptions (capped); x+y+stop triples; monitor add/terminal races; after every execution no goroutine may remain blocked inside the library. Stuck threads get 30 s + 24 h of virtual time before the verdict. A panic in any goroutine the library starts is recovered by overlay-inserted guards and reported as a violation.")
